@@ -18,7 +18,7 @@ from .. import cover, gen
 LEVEL = 'exploration'
 JOBS = {'quick': 4, 'thorough': 16}
 REQUIRED_MONITORS = ('shadow_comparison', 'rigid_operation')
-REQUIRED_CLASSES = ('obj:AtomGro', 'obj:Residue', 'obj:Molecule', 'obj:Molecule-multi-residue', 'src:system', 'src:alignment',
+REQUIRED_CLASSES = ('obj:AtomGro', 'obj:Residue', 'obj:Molecule', 'obj:Molecule-multi-residue', 'src:system', 'system:one-of-two-on-a-shared-handle', 'src:alignment',
                     'src:shipped', 'op:copy', 'op:deep_copy', 'op:move', 'op:move_to', 'op:rotate', 'op:set-positions',
                     'op:set-velocities', 'op:set-velocities-none', 'op:set-ids', 'op:set-resids', 'op:view-index',
                     'op:view-iterate', 'op:view-inplace', 'op:shared-array', 'op:rename-deep-copy', 'op:atoms-property',
@@ -123,16 +123,39 @@ def shipped_molecule(rng):
     return _cache[key].deep_copy()
 
 
-def system_molecule(rng):
+def system_molecule(rng, ctx=None):
+    """A molecule handed out by a System: one built on paths, or one of two Systems built on ONE open coordinate handle
+    (the caller rewound it in between) that are used in turn - often for the molecule right after the one that System
+    handed out last, with the other System's reads in between."""
     import gaddlemaps
     from gaddlemaps.components import System
     d = os.path.join(os.path.dirname(gaddlemaps.__file__), 'data')
     if 'system' not in _cache:
-        _cache['system'] = System(os.path.join(d, 'system_bmimbf4_cg.gro'), os.path.join(d, 'BMIM_CG.itp'),
-                                  os.path.join(d, 'BF4_CG.itp'))
-    s = _cache['system']
+        gro, t1, t2 = (os.path.join(d, f) for f in ('system_bmimbf4_cg.gro', 'BMIM_CG.itp', 'BF4_CG.itp'))
+        s0 = System(gro, t1, t2)
+        fh = open(gro)
+        sa = System(fh, t1, t2)
+        fh.seek(0)
+        sb = System(fh, t2, t1)
+        _cache['system'] = [s0, sa, sb]
+        _cache['handle'] = fh
+        _cache['last'] = [None, None, None]
+        _cache['truth'] = [(m.name, np.array(m.atoms_positions), list(m.atoms_ids)) for m in s0]
+    which = int(rng.integers(0, 3))
+    s = _cache['system'][which]
+    last = _cache['last'][which]
     k = int(rng.integers(0, len(s)))
-    return s, k, s[k]
+    if last is not None and last + 1 < len(s) and rng.random() < 0.6:
+        k = last + 1
+    _cache['last'][which] = k
+    m = s[k]
+    if ctx is not None:
+        ctx.hit('system:on-paths' if which == 0 else 'system:one-of-two-on-a-shared-handle')
+        name, pos, ids = _cache['truth'][k]
+        if m.name != name or not np.array_equal(np.array(m.atoms_positions), pos) or list(m.atoms_ids) != ids:
+            ctx.violation('system-hands-out-another-molecule', f'System[{k}] (system {which} of [paths, shared handle A, shared handle B]) is not '
+                          f'molecule {k} of the file')
+    return s, k, m
 
 
 _flags = []
@@ -207,7 +230,7 @@ def run_case(ctx, case):
         add(shipped_molecule(rng), 'shipped molecule', True)
         ctx.hit('src:shipped')
     elif src == 'system':
-        s, k, m = system_molecule(rng)
+        s, k, m = system_molecule(rng, ctx)
         system_ref = (s, k, observe(m))
         add(m, f'System[{k}]', False)
         ctx.hit('src:system')
